@@ -19,7 +19,7 @@ func init() {
 			"C05.3 guards dominate insertion: bucket.AddNode only under id ≠ rootID ∧ GetNode(addr,id)=nil ∧ Len < k on the bucket it inserts into; table.addNode only under nodeIsBad(n)=false (which implies id ≠ own id, id ≠ 0) and with room in the bucket (Len < k, or the eviction loop ended because Len < k); k is the constant 8 stored once; rootID is the server's own ID; " +
 			"C05.4 Server.table, Server.transactions and the per-node liveness fields are only touched with Server.mu held (writes under the write lock); " +
 			"C05.5 reported numbers are derived from the entries on every call (Stats().Nodes/GoodNodes, NumNodes(), Nodes()): no cached counter; the iteration helpers visit every entry unless the callback asks to stop; IsGood(n) implies not-bad and has-responded; " +
-			"C05.6 the address equality of the duplicate test (bucket.GetNode) is the projection that keys the address index (Addr.String()), so 'same address' means the same in both indexes.",
+			"C05.6 the address equality of the duplicate test (bucket.GetNode) is the projection that keys the address index (Addr.String()), so 'same address' means the same in both indexes; an entry's ID and address are stored only while the entry is being built (through a fresh allocation), never through a pointer to an entry that may already be filed under them.",
 		NotDecided: "that bucketIndex computes the shared-prefix length (C18.4 decides its shape only), equality of the two indexes after arbitrary histories (follows by induction from C05.1+C05.2), time-dependent goodness.",
 		Assume:     []string{"Go map semantics; bucket.nodes keys are *node pointers created once per admitted contact"},
 		Rules: []*Rule{
@@ -814,6 +814,52 @@ func c05r6(w *World, rr *RuleRun) {
 	})
 	if nEq == 0 {
 		rr.Oblige(shortFuncName(a.getNode), "the duplicate test compares addresses by the projection that keys the address index", w.P.Pos(a.getNode.Pos()), false, "no address comparison found in bucket.GetNode")
+	}
+	// an entry's identity (ID and address) is fixed when the entry is built: the bucket it sits in
+	// and its place in the address index were both derived from it, so a later write through a
+	// pointer to an existing entry leaves the index and the buckets disagreeing
+	idF := w.P.Field("", "nodeKey", "Id")
+	keyEmb := w.P.Field("", "node", "nodeKey")
+	nId := 0
+	eachInstr(w.P.LibFuncs, func(fn *ssa.Function, ins ssa.Instruction) {
+		st, ok := ins.(*ssa.Store)
+		if !ok {
+			return
+		}
+		touches := false
+		base := st.Addr
+		for i := 0; i < 8; i++ {
+			switch x := base.(type) {
+			case *ssa.FieldAddr:
+				f := x.X.Type().Underlying().(*types.Pointer).Elem().Underlying().(*types.Struct).Field(x.Field)
+				if f == addrF || f == idF || f == keyEmb {
+					touches = true
+				}
+				base = x.X
+				continue
+			case *ssa.IndexAddr:
+				base = x.X
+				continue
+			}
+			break
+		}
+		if !touches {
+			// whole-struct overwrite through a pointer to an entry / its key
+			if pt, isP := st.Addr.Type().Underlying().(*types.Pointer); isP {
+				if n, isN := pt.Elem().(*types.Named); isN && n.Obj().Pkg() != nil && n.Obj().Pkg().Path() == modPath && (n.Obj().Name() == "node" || n.Obj().Name() == "nodeKey") {
+					touches = true
+				}
+			}
+		}
+		if !touches {
+			return
+		}
+		nId++
+		_, fresh := base.(*ssa.Alloc)
+		rr.At(w, ins, "an entry's ID and address are written only while the entry is being built (never through a pointer to an existing entry)", fresh, "writes "+trunc(w.TS.Of(st.Addr).String(), 100)+" in "+shortFuncName(fn))
+	})
+	if nId == 0 {
+		rr.Oblige("node", "an entry's ID and address are written only while the entry is being built (never through a pointer to an existing entry)", "-", false, "no construction site found")
 	}
 }
 
